@@ -622,3 +622,49 @@ func init() {
 		return iface{}
 	}
 }
+
+
+func init() {
+	// bun statements issued directly by controller code (the ledger state tracker): UPDATE ... / raw SELECT setval(...)
+	// are opaque objects; Exec hands over to the harness' model:
+	//   func verifBunExecUpdate() (sql.Result, error)        func verifBunExecRaw(query string) (sql.Result, error)
+	harnessFn := func(fr *frame, name string) *ssa.Function {
+		for _, p := range fr.i.prog.AllPackages() {
+			if f := p.Func(name); f != nil {
+				return f
+			}
+		}
+		panic(engineErr("the harness does not define " + name))
+	}
+	newQuery := func(pkgType string) intrinsicFn {
+		return func(fr *frame, a []value) value {
+			return newCell(fr.i.namedType("github.com/uptrace/bun", pkgType))
+		}
+	}
+	for _, recv := range []string{"(github.com/uptrace/bun.Tx)", "(*github.com/uptrace/bun.Tx)", "(*github.com/uptrace/bun.DB)", "(github.com/uptrace/bun.Conn)"} {
+		intrinsics[recv+".NewUpdate"] = newQuery("UpdateQuery")
+		intrinsics[recv+".NewRaw"] = func(fr *frame, a []value) value {
+			bunLastRaw = a[1]
+			return newCell(fr.i.namedType("github.com/uptrace/bun", "RawQuery"))
+		}
+		intrinsics[recv+".NewSelect"] = newQuery("SelectQuery")
+	}
+	for _, m := range []string{"Model", "Set", "Where", "Returning", "ModelTableExpr", "Column"} {
+		intrinsics["(*github.com/uptrace/bun.UpdateQuery)."+m] = func(fr *frame, a []value) value { return a[0] }
+	}
+	intrinsics["(*github.com/uptrace/bun.UpdateQuery).Exec"] = func(fr *frame, a []value) value {
+		return call(fr.i, fr, 0, harnessFn(fr, "verifBunExecUpdate"), nil)
+	}
+	intrinsics["(*github.com/uptrace/bun.RawQuery).Exec"] = func(fr *frame, a []value) value {
+		return call(fr.i, fr, 0, harnessFn(fr, "verifBunExecRaw"), []value{bunLastRaw})
+	}
+	// the identity of the running logical thread (0 = the harness' main thread)
+	harnessAPI["verifThreadID"] = func(fr *frame, a []value) value {
+		if X.sch == nil || X.sch.cur == nil {
+			return 0
+		}
+		return X.sch.cur.id
+	}
+}
+
+var bunLastRaw value
